@@ -1,8 +1,13 @@
 package main
 
 import (
+	"crypto/sha256"
+	"encoding/hex"
 	"fmt"
 	"os"
+	"path/filepath"
+	"strings"
+	"sync"
 	"time"
 )
 
@@ -29,5 +34,91 @@ func selftestFidelity() int {
 		return 1
 	}
 	fmt.Printf("fidelity: the repository's suite passes inside the instrumented copy (%v); sites rewritten: %v\n", time.Since(start).Round(time.Millisecond), b.report.Sites)
+	return 0
+}
+
+// selftestDeterminism: the same (VERIF_SEED, run range) executed by many
+// processes under GOMAXPROCS 1, 4 and 16 must give identical per-run logs
+// (tape hash, schedule hash, state hashes, verdict). Usage:
+//
+//	vsim selftest determinism [props...]     (default: all engines)
+func selftestDeterminism(args []string) int {
+	props := args
+	if len(props) == 0 {
+		props = []string{"C12", "C01", "C15", "C02", "C09", "C13", "C19", "C11", "C07"}
+	}
+	b := prepare("C12", false)
+	var ser *build
+	bad := 0
+	for _, prop := range props {
+		if engineOf(prop) == "" {
+			continue
+		}
+		wb := b
+		runs := "300"
+		if needsE5(prop) {
+			if ser == nil {
+				ser, _ = b.buildE5()
+			}
+			wb = ser
+			runs = "300"
+		}
+		type res struct {
+			sum  string
+			desc string
+		}
+		var mu sync.Mutex
+		var results []res
+		var wg sync.WaitGroup
+		sem := make(chan struct{}, 16)
+		for _, procs := range []string{"1", "4", "16"} {
+			for rep := 0; rep < 10; rep++ {
+				wg.Add(1)
+				go func(procs string, rep int) {
+					defer wg.Done()
+					sem <- struct{}{}
+					defer func() { <-sem }()
+					out := filepath.Join(b.dir, fmt.Sprintf("det-%s-%s-%d", prop, procs, rep))
+					os.MkdirAll(out, 0o755)
+					logf := filepath.Join(out, "runlog")
+					cmd := wb.command("-prop", prop, "-tier", "quick", "-seed", "7", "-worker", "0", "-nworkers", "1", "-maxruns", runs, "-budget", "10m", "-out", out, "-avoid", "-", "-runlog", logf)
+					cmd.Env = append(cmd.Env, "GOMAXPROCS="+procs)
+					if o, err := cmd.CombinedOutput(); err != nil {
+						mu.Lock()
+						results = append(results, res{"ERROR", fmt.Sprintf("GOMAXPROCS=%s rep=%d: %v %s", procs, rep, err, tail(string(o), 5))})
+						mu.Unlock()
+						return
+					}
+					lb, _ := os.ReadFile(logf)
+					h := sha256.Sum256(lb)
+					mu.Lock()
+					results = append(results, res{hex.EncodeToString(h[:8]) + fmt.Sprintf(" (%d lines)", strings.Count(string(lb), "\n")), fmt.Sprintf("GOMAXPROCS=%s rep=%d", procs, rep)})
+					mu.Unlock()
+				}(procs, rep)
+			}
+		}
+		wg.Wait()
+		distinct := map[string][]string{}
+		for _, r := range results {
+			distinct[r.sum] = append(distinct[r.sum], r.desc)
+		}
+		if len(distinct) == 1 {
+			for k := range distinct {
+				fmt.Printf("determinism %s: %d processes (GOMAXPROCS 1/4/16 x 10), %s runs each: identical run logs %s\n", prop, len(results), runs, k)
+			}
+		} else {
+			bad++
+			fmt.Printf("determinism %s: DIVERGENCE: %d different run logs\n", prop, len(distinct))
+			for k, v := range distinct {
+				fmt.Printf("   %s: %v\n", k, v)
+			}
+		}
+	}
+	// harness source scan for uncontrolled nondeterminism
+	out, _ := run(verifDir, os.Environ(), "grep", "-rnE", `\.Range\(|time\.Now\(|math/rand|rand\.(Int|Float|Perm|Shuffle)`, "harness", "--include=*.go")
+	fmt.Printf("harness scan for .Range( / time.Now( / math/rand (allow-list: sim/run.go wall-clock backstop, workerlib budget timer):\n%s", out)
+	if bad > 0 {
+		return 1
+	}
 	return 0
 }
